@@ -428,8 +428,28 @@ constexpr MagRepresentationOrError<T> root(T x, std::uintmax_t n) {
     return {MagRepresentationOutcome::OK, static_cast<T>(lo_diff < hi_diff ? lo : hi)};
 }
 
+// Whether a (positive) base can be cast to the widened type `W` without changing its value.
+//
+// This can only fail when both are integral: e.g., a prime above 2^63 does not fit in `intmax_t`.
+template <typename W,
+          typename B,
+          bool BothIntegral = (std::is_integral<W>::value && std::is_integral<B>::value)>
+struct BaseFitsInWidenedType {
+    static constexpr bool check(B) { return true; }
+};
+template <typename W, typename B>
+struct BaseFitsInWidenedType<W, B, true> {
+    static constexpr bool check(B base) {
+        return stdx::cmp_less_equal(base, std::numeric_limits<W>::max());
+    }
+};
+
 template <typename T, std::intmax_t N, std::uintmax_t D, typename B>
 constexpr MagRepresentationOrError<Widen<T>> base_power_value(B base) {
+    if (!BaseFitsInWidenedType<Widen<T>, B>::check(base)) {
+        return {MagRepresentationOutcome::ERR_CANNOT_FIT};
+    }
+
     if (N < 0) {
         const auto inverse_result = base_power_value<T, -N, D>(base);
         if (inverse_result.outcome != MagRepresentationOutcome::OK) {
@@ -531,6 +551,11 @@ constexpr MagRepresentationOrError<T> get_value_result(Magnitude<BPs...>) {
 
     if ((widened_result.outcome != MagRepresentationOutcome::OK) ||
         !safe_to_cast_to<T>(widened_result.value)) {
+        return {MagRepresentationOutcome::ERR_CANNOT_FIT};
+    }
+
+    // A Magnitude is strictly positive.  If its value underflows to zero in `T`, we cannot represent it.
+    if (static_cast<T>(widened_result.value) == T{0}) {
         return {MagRepresentationOutcome::ERR_CANNOT_FIT};
     }
 
